@@ -506,7 +506,7 @@ def spMdT (cfg : SWCfg) (c : Col) (codec nv : Nat) (tu : Int) (tc pos : Nat) : T
            (if cfg.withExtras then [(100, .int 6 5)] else []))
 
 def spChunkT (cfg : SWCfg) (c : Col) (codec nv : Nat) (tu : Int) (tc pos : Nat) : TVal :=
-  .struct [(2, .int 6 pos), (3, spMdT cfg c codec nv tu tc pos)]
+  .struct [(2, .int 6 (cfg.fileOff pos tc)), (3, spMdT cfg c codec nv tu tc pos)]
 
 theorem chunks_nil (cfg : SWCfg) (compress : Nat → Bytes → Bytes) (rgi : Nat) (recs : List Rec) (ci : Nat) (cs : Choices)
     (pos : Nat) : specWriteLog.chunks cfg compress none rgi recs [] ci cs pos = ([], [], [], cs) := by
@@ -525,13 +525,13 @@ theorem chunks_cons (cfg : SWCfg) (compress : Nat → Bytes → Bytes) (rgi : Na
   rfl
 
 /-- what `ColumnChunk.Read` makes of it -/
-def spChunkMeta (c : Col) (codec nv : Nat) (tu : Int) (tc pos : Nat) : ChunkMeta :=
-  { fileOffset := pos,
+def spChunkMeta (cfg : SWCfg) (c : Col) (codec nv : Nat) (tu : Int) (tc pos : Nat) : ChunkMeta :=
+  { fileOffset := cfg.fileOff pos tc,
     md := some { ty := c.ty.phys, encodings := [0, 3], path := c.path.map strBytes, codec := codec,
                  numValues := nv, totalUncompressed := tu, totalCompressed := tc, dataPageOffset := pos } }
 
 theorem decChunk_spChunkT (cfg : SWCfg) (c : Col) (codec nv : Nat) (tu : Int) (tc pos : Nat) :
-    decChunk (spChunkT cfg c codec nv tu tc pos) = some (spChunkMeta c codec nv tu tc pos) := by
+    decChunk (spChunkT cfg c codec nv tu tc pos) = some (spChunkMeta cfg c codec nv tu tc pos) := by
   cases he : cfg.withExtras <;>
     simp [decChunk, spChunkT, spMdT, he, spChunkMeta, TVal.fieldsOf, getI64, getI32, getList, decColMeta, List.lookup,
       filterMap_binOf, intOf]
@@ -601,7 +601,7 @@ theorem chunks_spec (cfg : SWCfg) (compress : Nat → Bytes → Bytes) (rgi : Na
     obtain ⟨i1, i2, ⟨metas, i3, i4⟩, i5⟩ := chunks_spec cfg compress rgi recs rest (ci + 1) em.2.2.2 (pos + em.1.length)
     rw [e2, ← hcs] at i1 i2 i3 i4 i5
     rw [e2, ← hcs]
-    refine ⟨?_, ?_, ⟨spChunkMeta c codec ((recs.map fun r => r.getD ci []).map List.length).sum
+    refine ⟨?_, ?_, ⟨spChunkMeta cfg c codec ((recs.map fun r => r.getD ci []).map List.length).sum
       ((em.1.length : Int) + em.2.2.1) em.1.length pos :: metas, ?_, ?_⟩, ?_⟩
     · simp only [spChunks, gBytes_cons, hgb, i1]
       rw [e1]
